@@ -317,6 +317,7 @@ def _variants():
     o["U.normalize_image:modes"] = lambda c: U.normalize_image(c.pick([c.img, c.prob, c.unit])(), mode=c.pick(["unit", "center", "zscore", "z-score"]), **c.pick([dict(), dict(min=-1.0, max=1.0), dict(min=0.0), dict(max=0.5)]))
     o["U.grid_sample:unbatched"] = lambda c: c.pick([U.grid_sample, U.sample_image])(c.img(), c.sub(c.coords(), 0))
     o["U.batched_index_select:tracked"] = lambda c: U.batched_index_select(c.pts(), 1, c.sub(c.axisvec([0, 2, 1, 1], dtype=torch.int64, name="index", n=4).reshape(2, 2), Ellipsis))
+    o["U.homogeneous_matrix:offset"] = lambda c: U.homogeneous_matrix(c.mat(), offset=c.pick([c.vec(c.D), c.scalar(0.5), 0.25]))
     o["U.derivatives:sigvec"] = lambda c: c.pick([U.divergence, U.jacobian_det, U.curl])(c.flow(), sigma=c.pick([0.8, 0.0]), spacing=c.axisvec([1.0, 2.0, 0.5], name="spacing"), mode=c.pick([None, "central", "bspline"]))
     o["U.derivatives:spacing"] = lambda c: c.pick([U.divergence, U.jacobian_det, U.curl, U.jacobian_matrix])(c.flow(), spacing=c.spacing_arg(), mode=c.pick([None, "central", "forward"]))
     o["U.spatial_derivatives:spacing"] = lambda c: U.spatial_derivatives(c.img(), which=c.pick(["x", ["x", "y"]]), spacing=c.spacing_arg(), mode=c.pick([None, "central", "bspline"]))
